@@ -40,7 +40,7 @@ func NewTime(index Time, activeStates []int) Time {
 func (t Time) Increment(idx int) Time {
 	ret := make(Time, len(t))
 	copy(ret, t)
-	if idx < len(ret) {
+	if idx >= 0 && idx < len(ret) {
 		ret[idx]++
 	}
 	return ret
@@ -86,7 +86,7 @@ func (t Time) ToIndex(index S) *TimeIndex {
 func (t Time) Filter(idxs []int) Time {
 	ret := make(Time, len(idxs))
 	for i, idx := range idxs {
-		if idx >= len(t) {
+		if idx < 0 || idx >= len(t) {
 			continue
 		}
 		ret[i] = t[idx]
@@ -110,7 +110,7 @@ func (t Time) Sum(idxs []int) uint64 {
 	// selective sum
 	var sum uint64
 	for _, idx := range idxs {
-		if idx >= len(t) {
+		if idx < 0 || idx >= len(t) {
 			continue
 		}
 		sum += t[idx]
@@ -192,7 +192,12 @@ func (t Time) Equal(strict bool, time2 Time) bool {
 	}
 
 	for i, t1 := range t {
-		if t1 != time2[i] {
+		// a tick missing in the shorter time2 counts as 0
+		var t2 uint64
+		if i < len(time2) {
+			t2 = time2[i]
+		}
+		if t1 != t2 {
 			return false
 		}
 	}
@@ -205,7 +210,7 @@ func (t Time) Equal(strict bool, time2 Time) bool {
 // Tick is [Machine.Tick] but for an int-based time slice.
 func (t Time) Tick(idx int) uint64 {
 	// out of bound falls back to 0
-	if len(t) <= idx {
+	if idx < 0 || len(t) <= idx {
 		return 0
 	}
 
@@ -214,7 +219,7 @@ func (t Time) Tick(idx int) uint64 {
 
 // Is1 is [Machine.Is1] but for an int-based time slice.
 func (t Time) Is1(idx int) bool {
-	if idx == -1 || idx >= len(t) {
+	if idx < 0 || idx >= len(t) {
 		return false
 	}
 	return IsActiveTick(t[idx])
@@ -228,7 +233,7 @@ func (t Time) Is(idxs []int) bool {
 
 	for _, idx := range idxs {
 		// -1 is not found or mach disposed
-		if idx == -1 {
+		if idx < 0 || idx >= len(t) {
 			return false
 		}
 		if !IsActiveTick(t[idx]) {
@@ -247,7 +252,7 @@ func (t Time) Not(idxs []int) bool {
 
 	for _, idx := range idxs {
 		// -1 is not found or mach disposed
-		if idx != -1 && IsActiveTick(t[idx]) {
+		if idx >= 0 && idx < len(t) && IsActiveTick(t[idx]) {
 			return false
 		}
 	}
@@ -257,7 +262,7 @@ func (t Time) Not(idxs []int) bool {
 
 // Not1 is [Machine.Not1] but for an int-based time slice.
 func (t Time) Not1(idx int) bool {
-	if idx == -1 || idx >= len(t) {
+	if idx < 0 || idx >= len(t) {
 		return false
 	}
 
@@ -292,6 +297,9 @@ func (t Time) ActiveStates(idxs []int) []int {
 	ret := make([]int, 0, len(idxs))
 	for i, tick := range t {
 		if !IsActiveTick(tick) {
+			continue
+		}
+		if idxs != nil && !slices.Contains(idxs, i) {
 			continue
 		}
 		ret = append(ret, i)
